@@ -182,3 +182,19 @@ func toolConfirm(rr *runResult, pkg string, tp *sym.Tape, label string) (bool, s
 	}
 	return true, fmt.Sprintf("%s fails on concrete re-execution of the real handleAction; real tool %s: %s", label, outcome, desc)
 }
+
+// engineConfirm: counterexample of an engine-only harness: concrete
+// re-execution of the real code (with the spec's substitutions) on the tape.
+func engineConfirm(rr *runResult, pkg string, tp *sym.Tape, label string) (bool, string) {
+	w, err := sym.NewWorker(rr.engine, sym.Options{Solver: "z3", LoopBound: 1 << 20, MaxSteps: 50000000, AssertPrefix: rr.spec.ID + "."})
+	if err != nil {
+		return false, "cannot start worker: " + err.Error()
+	}
+	defer w.Close()
+	fn := rr.engine.Func(modPath+"/"+pkg, tp.Harness)
+	cr := w.ExploreConcrete(fn, tp)
+	if !contains(cr.Failed, label) {
+		return false, "concrete re-execution does not fail " + label + ": " + cr.Summary()
+	}
+	return true, label + " fails on concrete re-execution of the real code in the engine (harness uses substituted functions: no native run)"
+}
